@@ -118,6 +118,9 @@ def new (nw : Network) (nodes : List Nat) : R Tour := do
 def pathTrusted (nw : Network) (nodes : List Nat) : Option (List Nat) :=
   if nodes.all (fun n => (nw.node n).isDepot) then none else some nodes
 
+/-- consecutive nodes are connectable (the test of `Path::new`) -/
+def isChain (nw : Network) (nodes : List Nat) : Bool := (pairs nodes).all (fun p => nw.canReach p.1 p.2)
+
 /-- `Path::new` -/
 def pathNew (nw : Network) (nodes : List Nat) : R (Option (List Nat)) :=
   if (pairs nodes).any (fun p => !(nw.canReach p.1 p.2)) then .error (.err "Not a valid Path")
